@@ -36,6 +36,16 @@ couplings stored as `(local id, node id)`). -/
 theorem code_as_modelled : AsModelled code :=
   ⟨rfl, rfl, rfl, fun _ => rfl, fun _ => rfl⟩
 
+/-- the face-type indices the epithelial class writes are those of the model (`polarise` writes 0 / 1,
+`updateFaceTypes` writes 0) and fit in every admissible face-type table of an epithelial cell type -/
+theorem epi_types_admissible : ∀ t ∈ Simu.Gen.Population.epiTypesWritten, (t = 0 ∨ t = 1) ∧ t < reqTypes 0 := by decide
+
+/-- the start-up code admits only cell types with as many face types as their cell class writes
+(`reqTypes`): the hypothesis `CellOK.admissible` of the initial population is enforced by the code -/
+theorem admission_gate : ∀ kind, reqTypes kind ≤
+    (if kind = 0 then Simu.Gen.Population.minTypesEpithelial else Simu.Gen.Population.minTypesAll) := by
+  intro kind; unfold reqTypes; split <;> decide
+
 /-- start-up (`solver::solver`): ids `0 … n-1`, local id = id = position -/
 theorem init_inv {cells : List Cell} {o : Nat} (h : InitOK cells o) : Inv (init cells o) :=
   init_inv' h.objsNodup h.objsLt h.cellsOK
